@@ -354,8 +354,10 @@ class PLSSDesc:
         # Preprocessed description set to .orig_desc until parsed.
         self.pp_desc = self.orig_desc
 
-        # If layout was specified as kwarg, use that:
-        self.layout = layout
+        # If layout was specified as kwarg, use that (it overrides any
+        # layout set via `config`):
+        if layout is not None:
+            self.layout = layout
         # Track whether the layout was dictated by the user.
         self.layout_specified = False
         if self.layout is not None:
@@ -663,6 +665,9 @@ class PLSSDesc:
         # `.parse(layout=<string>)`, PLSSParser.parse_chunk() will be
         # prevented from deducing it.  Leave as None to allow the parser
         # to deduce.
+
+        if layout is None:
+            layout = self.layout
 
         if parse_qq is None:
             parse_qq = self.parse_qq
